@@ -79,6 +79,12 @@ def flat_events(evs):
                 summarised.append(e[2])
                 for k_, c_, sub in e[1][1]:
                     rec(sub)
+            elif e[0] == 'branch':
+                # alternative paths through an inlined helper, folded into one event: their effects cannot be counted per path
+                if any(x[0] in ('delete', 'new', 'write', 'store', 'branch', 'loop') for k_, c_, sub in e[1][1] for x in sub):
+                    summarised.append(e[2])
+                for k_, c_, sub in e[1][1]:
+                    rec(sub)
             else:
                 out.append(e)
     rec(evs)
